@@ -132,7 +132,8 @@ def policy_random(body, cfg):
             ops += more[:rng.choice([1, 1, 2])]
         pool = body['pools'][rng.randrange(len(body['pools']))]
         cpu = rng.randint(1, 2)
-        ram = rng.choice([1, 2, 3, 4, 1.5, 0.5])
+        # 'big': allocations whose write-out on suspension takes several ticks (RAM/20 s)
+        ram = rng.choice([4, 6, 8, 8]) if cfg.get('big') else rng.choice([1, 2, 3, 4, 1.5, 0.5])
         f = free[pool['pool_id']]
         if f[0] < cpu or f[1] < ram:
             continue
@@ -853,12 +854,22 @@ def gen_rest(rng, force=None):
     nticks = rng.randint(20, 300 if per_poll >= 4 else 120)
     npools = rng.randint(1, 3)
     ram = rng.choice([4, 8, 16, 16.5])
-    policy = rng.choice(['naive', 'naive', 'random', 'random', 'random', 'idle', 'mixing', 'mixing'])
-    multi = rng.random() < 0.7 or policy == 'mixing'
+    policy = rng.choice(['naive', 'naive', 'random', 'random', 'random', 'idle', 'mixing', 'mixing', 'suspender', 'suspender'])
+    multi = rng.random() < 0.7 or policy in ('mixing', 'suspender')
+    big = policy == 'suspender'
+    if big:
+        # long write-outs observed by many requests: 8 GB at 10..100 ticks/s is 4..40 ticks, a call at least every 1..10 ticks
+        policy = 'random'
+        if not force:
+            tps, poll = rng.choice([(10, 0.1), (10, 0.5), (100, 0.01), (100, 0.1), (4, 0.5)])
+            per_poll = max(1, poll * tps)
+            nticks = rng.randint(60, 200)
+        ram = rng.choice([16, 16.5, 32])
     r = dict(gen='G-rest', tps=tps, poll=poll, duration=nticks / tps, npools=npools, cpu=rng.choice([2, 4, 8]),
              ram=ram, multi=int(multi), over=int(rng.random() < 0.3),
              policy=dict(name=policy, seed=rng.randrange(10 ** 6), retry=rng.random() < 0.5, multi=multi,
-                         p_susp=rng.choice([0.0, 0.5, 0.9]), p_blind=rng.choice([0.0, 0.0, 0.05, 0.2])))
+                         p_susp=0.9 if big else rng.choice([0.0, 0.5, 0.9]), p_blind=rng.choice([0.0, 0.0, 0.05, 0.2]),
+                         big=big))
     if policy == 'mixing':
         r['arrivals'] = gen_mixing_arrivals(rng, tps, nticks, per_poll)
         return r
@@ -969,6 +980,8 @@ def run(ctx):
             st['failed_results_sent'] += sum(1 for b in tap.bodies for x in b['results'] if x['error'])
             st['assignments'] += sum(len(x['assignments']) for x in tap.replies)
             st['suspensions'] += sum(len(x['suspensions']) for x in tap.replies)
+            st['requests_showing_a_suspending_container'] += sum(
+                1 for b in tap.bodies if any(p['suspending_containers'] for p in b['pools']))
             st['containers_mixing_two_pipelines_seen'] += len({c['container_id'] for b in tap.bodies for p in b['pools']
                                                                for k in ('active_containers', 'suspending_containers')
                                                                for c in p[k] if c['pipeline_id'] == 'multiple_pipelines'})
